@@ -41,6 +41,8 @@ TIES = {
                           "roles.checkPassCode"]},
     "C10": {"area": "Caco", "refine": "CodeRefineBuild", "cands": "CodeCandsBuild",
             "functions": ["caco3.sameFileStat"]},
+    "C14": {"area": "Sni", "refine": "CodeRefineHello", "cands": "CodeCandsHello",
+            "functions": ["sniproxy.TLSHelloConn.HelloInfo (record-length arithmetic up to recLen)"]},
     "C17": {"area": "Arch", "refine": "CodeRefine", "cands": "CodeCands",
             "functions": ["ziputil.inDir", "dock.inDir"]},
     "C18": {"area": "Obj", "refine": "CodeRefine", "cands": "CodeCands",
